@@ -11,7 +11,7 @@ def correspondence(ctx):
 
 
 def run(ctx):
-    return G.run(ctx, 'C04', 'proof', ('Gen_util', 'Gen_model', 'Gen_tables'), ['Char_model.v', 'C17.v', 'C04.v'], TRUSTED, correspondence=correspondence)
+    return G.run(ctx, 'C04', 'proof', ('Gen_util', 'Gen_model', 'Gen_tables'), ['Char_model.v', 'C17.v', 'Slots.v', 'C04.v'], TRUSTED, correspondence=correspondence)
 
 
 def replay(payload):
